@@ -1,74 +1,65 @@
 /-
   C02 helper lemmas: dict operations (Impl step = Spec step) and invariant preservation.
 -/
-import PgProofs.ContainerExt
+import PgProofs.ContainerMerge
 namespace Pg.C02
 
-/-- State invariant of a dict: every stored value is a `GoodVal`. -/
-def GoodD (kvs : List (Key × Val)) : Prop := ∀ p ∈ kvs, GoodVal p.2
+/-- No key is named twice (as Python keys: `True` and `1` are the same key). -/
+def distinctKeysB : List (Key × Val) → Bool
+  | [] => true
+  | p :: rest => rest.all (fun q => !(p.1.eqv q.1)) && distinctKeysB rest
 
-theorem hasKey_eq_lookup (kvs : List (Key × Val)) (k : Key) : hasKey kvs k = (lookupKey k kvs).isSome := by
-  induction kvs with
-  | nil => rfl
+theorem foldl_dictSet_distinct (ps acc : List (Key × Val))
+    (ha : ∀ a ∈ acc, ∀ p ∈ ps, a.1.eqv p.1 = false) (hd : distinctKeysB ps = true) :
+    ps.foldl (fun acc p => dictSet acc p.1 p.2) acc = acc ++ ps := by
+  induction ps generalizing acc with
+  | nil => simp
   | cons p rest ih =>
-    obtain ⟨k', v⟩ := p
-    unfold hasKey at ih ⊢
-    simp only [List.any_cons, lookupKey]
-    cases h : k'.eqv k with
-    | true => simp
-    | false => simp [ih]
+    simp only [distinctKeysB, Bool.and_eq_true, List.all_eq_true, Bool.not_eq_true'] at hd
+    have hk : hasKey acc p.1 = false := by
+      unfold hasKey
+      rw [List.any_eq_false]
+      intro a haa
+      simp [ha a haa p List.mem_cons_self]
+    simp only [List.foldl_cons, dictSet_nokey p.2 hk]
+    rw [ih (acc ++ [(p.1, p.2)]) ?_ hd.2]
+    · simp
+    · intro a haa q hq
+      rcases List.mem_append.mp haa with h | h
+      · exact ha a h q (List.mem_cons_of_mem _ hq)
+      · simp only [List.mem_singleton] at h
+        subst h
+        exact hd.1 q hq
 
-theorem lookupKey_mem {kvs : List (Key × Val)} {k : Key} {v : Val} (h : lookupKey k kvs = some v) :
-    ∃ p ∈ kvs, p.2 = v := by
-  induction kvs with
-  | nil => cases h
-  | cons p rest ih =>
-    obtain ⟨k', v'⟩ := p
-    unfold lookupKey at h
-    split at h
-    · injection h with h; subst h; exact ⟨(k', v'), List.mem_cons_self, rfl⟩
-    · obtain ⟨p, hp, he⟩ := ih h
-      exact ⟨p, List.mem_cons_of_mem _ hp, he⟩
+/-- Arguments that name every key once are merged into themselves. -/
+theorem mergePairs_distinct {ps : List (Key × Val)} (hd : distinctKeysB ps = true) :
+    PgDict.mergePairs ps = ps := by
+  unfold PgDict.mergePairs
+  rw [foldl_dictSet_distinct ps [] (by intro a ha; cases ha) hd]
+  rfl
 
-theorem dictErase_nokey {kvs : List (Key × Val)} {k : Key} (h : hasKey kvs k = false) :
-    dictErase kvs k = kvs := by
-  unfold dictErase
-  rw [List.filter_eq_self]
-  intro p hp
-  unfold hasKey at h
-  rw [List.any_eq_false] at h
-  have := h p hp
-  simpa using this
+/-- The arguments of one `update` / `rebind` / constructor call (positional entries followed by the
+keyword arguments) can be merged first: every key is named once, or no value is `MISSING`. -/
+def mergeOk (ps : List (Key × Val)) : Bool :=
+  distinctKeysB ps || ps.all (fun p => !p.2.isMissing)
 
-theorem setItemRaw_eq_assign {kvs : List (Key × Val)} {k : Key} {v : Val} (hv : missingFree v = true) :
-    (PgDict.setItemRaw kvs k v).1 = PyDict.assign kvs k v := by
-  unfold PgDict.setItemRaw PyDict.assign
-  cases hm : v.isMissing with
-  | true =>
-    simp only [if_true]
-    cases hk : hasKey kvs k with
-    | true => simp
-    | false => simp [dictErase_nokey hk]
-  | false => simp [conv_eq_self v hv]
-
-theorem setAll_eq_assignAll {kvs pairs : List (Key × Val)} (hv : ∀ p ∈ pairs, missingFree p.2 = true) :
-    PgDict.setAll kvs pairs = PyDict.assignAll kvs pairs := by
-  induction pairs generalizing kvs with
-  | nil => rfl
-  | cons p rest ih =>
-    obtain ⟨k, v⟩ := p
-    simp only [PgDict.setAll, PyDict.assignAll]
-    rw [setItemRaw_eq_assign (hv (k, v) List.mem_cons_self)]
-    exact ih (fun q hq => hv q (List.mem_cons_of_mem _ hq))
+theorem setAll_merge_of_ok {kvs ps : List (Key × Val)} (hf : ∀ p ∈ ps, missingFree p.2 = true)
+    (h : mergeOk ps = true) : PgDict.setAll kvs (PgDict.mergePairs ps) = PyDict.assignAll kvs ps := by
+  simp only [mergeOk, Bool.or_eq_true, List.all_eq_true, Bool.not_eq_true'] at h
+  rcases h with h | h
+  · rw [mergePairs_distinct h, setAll_eq_assignAll hf]
+  · exact setAll_mergePairs h hf
 
 /-- Which dict steps are in the domain of the refinement theorem: every value argument is free of
-nested `MISSING` (top-level `MISSING` is extension 1). -/
+nested `MISSING` (top-level `MISSING` is extension 1), and one `update` / `rebind` call either names
+every key once or carries no `MISSING` value (`mergeOk`). What remains excluded is a call that names
+a key twice with a `MISSING` among its values — `C02_dict_counterexample_update_merge`. -/
 def admissibleD (st : DStep) : Bool :=
   match st.op with
   | .set _ v => missingFree v
   | .setdefault _ d => missingFree d
-  | .update pairs => pairs.all (fun p => missingFree p.2)
-  | .rebind pairs => pairs.all (fun p => missingFree p.2)
+  | .update pairs kw => (pairs ++ kw).all (fun p => missingFree p.2) && mergeOk (pairs ++ kw)
+  | .rebind pairs kw => (pairs ++ kw).all (fun p => missingFree p.2) && mergeOk (pairs ++ kw)
   | _ => true
 
 theorem step_dict (kvs : List (Key × Val)) (st : DStep) (hg : GoodD kvs) (ha : admissibleD st = true) :
@@ -115,13 +106,13 @@ theorem step_dict (kvs : List (Key × Val)) (st : DStep) (hg : GoodD kvs) (ha : 
         obtain ⟨p, hp, he⟩ := lookupKey_mem hl
         rw [← he]; exact (hg p hp).1
       simp [hk, hm]
-  | update pairs =>
-    simp only [admissibleD, List.all_eq_true] at ha
-    simp only [implD, specD, setAll_eq_assignAll ha]
+  | update pairs kw =>
+    simp only [admissibleD, Bool.and_eq_true, List.all_eq_true] at ha
+    simp only [implD, specD, setAll_merge_of_ok ha.1 ha.2]
   | copy => simp only [implD, specD, cloneKvs_eq]
-  | rebind pairs =>
-    simp only [admissibleD, List.all_eq_true] at ha
-    simp only [implD, specD, setAll_eq_assignAll ha]
+  | rebind pairs kw =>
+    simp only [admissibleD, Bool.and_eq_true, List.all_eq_true] at ha
+    simp only [implD, specD, setAll_merge_of_ok ha.1 ha.2]
 
 /-! ### Preservation of the dict invariant -/
 
@@ -189,15 +180,15 @@ theorem specD_good (kvs : List (Key × Val)) (st : DStep) (hg : GoodD kvs) (ha :
     split
     · exact hg
     · exact goodD_assign hg (by simpa [admissibleD] using ha)
-  | update pairs =>
-    simp only [admissibleD, List.all_eq_true] at ha
-    exact goodD_assignAll hg ha
+  | update pairs kw =>
+    simp only [admissibleD, Bool.and_eq_true, List.all_eq_true] at ha
+    exact goodD_assignAll hg ha.1
   | copy => exact hg
-  | rebind pairs =>
-    simp only [admissibleD, List.all_eq_true] at ha
+  | rebind pairs kw =>
+    simp only [admissibleD, Bool.and_eq_true, List.all_eq_true] at ha
     simp only [specD]
     split
     · exact hg
-    · exact goodD_assignAll hg ha
+    · exact goodD_assignAll hg ha.1
 
 end Pg.C02
